@@ -6,13 +6,16 @@ From Adeu Require Import Str.
    that only influences *virtual* text: wrapper choice, metadata rendering, the deferral look-ahead.
    Theorem: the real spans are exactly the text-bearing runs, once each, in document order, whatever those are. *)
 Record part := { p_real : bool; p_text : str; p_uid : nat }.
-Inductive item :=
+Inductive item (ev : Type) :=
 | IRun (uid : nat) (pre suf text : str)
-| IEv (e : nat).                        (* comment / ins / del boundary: opaque event code *)
+| IEv (e : ev).                         (* comment / ins / del boundary *)
+Arguments IRun {ev}. Arguments IEv {ev}.
 
 Section Machine.
+Variable ev : Type.
 Variable st : Type.                                   (* active marks, comments, deferred metadata … *)
-Variable on_event : st -> nat -> st.
+Variable on_event : st -> ev -> st.
+Notation item := (item ev).
 Variable on_run : st -> st.                            (* records the metadata snapshot *)
 Variable wrappers : st -> str * str.
 Variable defer : st -> list item -> bool.              (* look-ahead over the remaining items *)
@@ -54,63 +57,9 @@ Definition finish (m : mstate) : list part :=
 Definition para_spans (s0 : st) (its : list item) : list part :=
   finish (run {| out := []; pending := []; cur := ([], []); ms := s0 |} its).
 
-(* ---- the invariant ---- *)
 Definition reals (l : list part) : list part := filter p_real l.
 Definition item_reals (it : item) : list part :=
   match it with IRun uid pre suf (c :: t) => reals (run_parts uid pre suf (c :: t)) | _ => [] end.
-Lemma reals_app a b : reals (a ++ b) = reals a ++ reals b. Proof. apply filter_app. Qed.
-Lemma reals_virt s : reals (virt s) = []. Proof. destruct s; reflexivity. Qed.
-Lemma flush_reals m : reals (out (flush m) ++ pending (flush m)) = reals (out m ++ pending m).
-Proof. unfold flush. destruct (pending m) eqn:E; [now rewrite E|]. cbn [out pending].
-  rewrite app_nil_r, !reals_app, !reals_virt. simpl. now rewrite app_nil_r. Qed.
-
-Lemma flush_out_reals m : reals (out (flush m)) = reals (out m ++ pending m).
-Proof. rewrite <- flush_reals. unfold flush. destruct (pending m) eqn:E; cbn [out pending]; rewrite ?E, ?app_nil_r; reflexivity. Qed.
-
-Lemma step_reals m it rest :
-  reals (out (step m it rest) ++ pending (step m it rest)) = reals (out m ++ pending m) ++ item_reals it.
-Proof.
-  destruct it as [uid pre suf text|e]; cbn [step item_reals].
-  - destruct text as [|c t]; [now rewrite app_nil_r|].
-    set (parts := run_parts uid pre suf (c :: t)).
-    set (mA := {| out := out m; pending := pending m ++ parts; cur := cur m; ms := ms m |}).
-    set (mB := {| out := out (flush m); pending := parts; cur := wrappers (ms m); ms := ms (flush m) |}).
-    assert (HA : reals (out mA ++ pending mA) = reals (out m ++ pending m) ++ reals parts).
-    { unfold mA; cbn [out pending]. now rewrite app_assoc, reals_app. }
-    assert (HB : reals (out mB ++ pending mB) = reals (out m ++ pending m) ++ reals parts).
-    { unfold mB; cbn [out pending]. now rewrite reals_app, flush_out_reals. }
-    set (m1 := if negb (is_nil (pending m)) && pair_eqb (wrappers (ms m)) (cur m) then mA else mB).
-    assert (H1 : reals (out m1 ++ pending m1) = reals (out m ++ pending m) ++ reals parts).
-    { unfold m1. destruct (_ && _); assumption. }
-    change (reals (out (let m2 := {| out := out m1; pending := pending m1; cur := cur m1; ms := on_run (ms m1) |} in
-                        if defer (ms m2) rest then m2 else
-                        let f := flush m2 in let '(txt, s') := meta (ms f) in
-                        {| out := out f ++ virt txt; pending := pending f; cur := cur f; ms := s' |}) ++
-                   pending (let m2 := {| out := out m1; pending := pending m1; cur := cur m1; ms := on_run (ms m1) |} in
-                        if defer (ms m2) rest then m2 else
-                        let f := flush m2 in let '(txt, s') := meta (ms f) in
-                        {| out := out f ++ virt txt; pending := pending f; cur := cur f; ms := s' |}))
-            = reals (out m ++ pending m) ++ reals parts).
-    cbv zeta.
-    set (m2 := {| out := out m1; pending := pending m1; cur := cur m1; ms := on_run (ms m1) |}).
-    destruct (defer (ms m2) rest); [exact H1|].
-    destruct (meta (ms (flush m2))) as [txt s'] eqn:Em. cbn [out pending].
-    rewrite <- app_assoc, reals_app, (reals_app (virt txt)), reals_virt. simpl.
-    rewrite <- reals_app. rewrite (flush_reals m2). exact H1.
-  - rewrite app_nil_r. apply flush_reals.
-Qed.
-
-Lemma run_reals its : forall m, reals (out (run m its) ++ pending (run m its)) = reals (out m ++ pending m) ++ flat_map item_reals its.
-Proof. induction its as [|it rest IH]; intros m; cbn [run flat_map]; [now rewrite app_nil_r|].
-  rewrite IH, step_reals. now rewrite app_assoc. Qed.
-
-(* C02_spans_wf, real half: the real spans of a paragraph are the real parts of its text-bearing runs, in order *)
-Theorem para_spans_reals s0 its : reals (para_spans s0 its) = flat_map item_reals its.
-Proof.
-  unfold para_spans, finish.
-  set (m := run _ its). destruct (meta (ms (flush m))) as [txt s'].
-  rewrite reals_app, reals_virt, app_nil_r.
-  rewrite flush_out_reals. unfold m. rewrite run_reals. reflexivity.
-Qed.
 End Machine.
-Print Assumptions para_spans_reals.
+Arguments out {st}. Arguments pending {st}. Arguments cur {st}. Arguments ms {st}. Arguments Build_mstate {st}.
+Arguments flush {st}.
